@@ -6,6 +6,7 @@ from hypothesis import strategies as st
 from vf.harness import bridges as H
 from vf.runner import Result, V
 from vf.sim.kernel import HarnessError
+from vf.sim.world import thread_exc_violations
 from vf.sim.schedules import schedule_strategy, schedule_valid
 
 ID = 'C16'
@@ -84,9 +85,10 @@ def _same_seq(a, b):
 
 def run_case(case):
     hist = H.run(case)
-    if hist['thread_excs']:
-        raise HarnessError('thread exception in bridge harness: %r' % hist['thread_excs'])
-    viol = []
+    died, harness = thread_exc_violations(hist['thread_excs'], V)
+    if harness:
+        raise HarnessError('thread exception in bridge harness: %r' % harness)
+    viol = list(died)
     src = case['src']
     elems = hist['elems']
     f = src.get('fail_at')
